@@ -1836,6 +1836,8 @@ class FortranFile:
                                 file_ast.add_public(word)
                 log.debug("%s !!! VISIBILITY - Ln:%d", line, line_no)
 
+        # Trailing documentation of the last statement of the file
+        self.parse_docs("", line_no, file_ast, docs)
         file_ast.close_file(line_no)
         if debug:
             if len(file_ast.end_errors) > 0:
@@ -2157,6 +2159,9 @@ class FortranFile:
                 ln = i
                 break
             docstring.append(next_line[match.end(0) :].strip())
+        else:
+            # The block ends the file: all its lines have been read
+            ln = self.nLines
         return ln, docstring, predocmark
 
     def get_single_line_docstring(self, line: str) -> list[str]:
